@@ -66,22 +66,34 @@ def history_case(ctx, rng, remove_pbc):
     d = int(rng.choice([2, 3]))
     _kind, H = gen_cell(rng, d)
     ppp = np.array([1] * d) if rng.random() < 0.6 else rng.integers(0, 2, size=d)
-    for step in range(4):
+    for step in range(6):
         _mode, R = gen_R(rng, H, d)
         ok, out = ctx.call("remove_pbc/history", remove_pbc, R.copy(), H, ppp, data={"H": H, "step": step})
         if ok:
             bad = pbc_post((R, H, ppp), {}, out)
             ctx.check("history", bad is None, "remove_pbc/history", lambda: f"after deforming the same cell array in place (step {step}): {bad[1]}",
                       lambda: {"H_now": H, "ppp": ppp, "step": step})
-        # in-place deformation of the very same ndarray
-        if rng.random() < 0.5:
+        # in-place deformation of the very same ndarray: compression, shear with stretch, or PURE shear (edge lengths -- the
+        # diagonal -- unchanged, only a tilt factor moves: fix deform xy); or another array with the same diagonal and another tilt
+        u = rng.random()
+        if u < 0.3:
             H *= float(rng.uniform(0.6, 1.7))
-        elif d == 3:
-            H[2, 0] += float(rng.uniform(-0.4, 0.4)) * H[0, 0]
-            H[1, 1] *= float(rng.uniform(0.7, 1.4))
+        elif u < 0.5:
+            if d == 3:
+                H[2, 0] += float(rng.uniform(-0.4, 0.4)) * H[0, 0]
+                H[1, 1] *= float(rng.uniform(0.7, 1.4))
+            else:
+                H[1, 0] += float(rng.uniform(-0.4, 0.4)) * H[0, 0]
+                H[0, 0] *= float(rng.uniform(0.7, 1.4))
+        elif u < 0.8:
+            H[1, 0] += float(rng.choice([-1, 1]) * rng.uniform(0.15, 0.45)) * H[0, 0]
+            if d == 3 and rng.random() < 0.5:
+                H[2, 1] += float(rng.choice([-1, 1]) * rng.uniform(0.15, 0.45)) * H[1, 1]
         else:
-            H[1, 0] += float(rng.uniform(-0.4, 0.4)) * H[0, 0]
-            H[0, 0] *= float(rng.uniform(0.7, 1.4))
+            H = H.copy()
+            H[1, 0] = float(rng.uniform(-0.5, 0.5)) * H[0, 0]
+            if d == 3:
+                H[2, 0] = float(rng.uniform(-0.5, 0.5)) * H[0, 0]
 
 
 def run(ctx):
